@@ -23,7 +23,8 @@ FUNCTIONS = ['dassh.read_input:DASSH_Input.convert_assn_deltaT_to_outletT', 'das
              'dassh.utils:get_mass_conversion', 'dassh.utils:get_time_conversion', 'dassh.utils:parse_mfr_units',
              'dassh.utils:_*_to_* scalar converters', 'dassh.read_input:convert_temperature',
              'dassh.read_input:convert_length', 'dassh.read_input:convert_mass_flow_rate',
-             'dassh.read_input:DASSH_Input.convert_units']
+             'dassh.read_input:DASSH_Input.convert_units',
+             'dassh.read_input:DASSH_Assignment.parse_assignment_section (positions expanded from one line own their boundary-condition dictionaries)']
 ASSUMPTIONS = ['the dimension table is ours (from the property statement and input_template.txt): lengths = every input '
                'measured in length units incl. surface roughness `epsilon` (it is divided by a hydraulic diameter in '
                'metres); temperature differences carry no offset; powers, pressures and fractions have no unit option',
@@ -152,14 +153,38 @@ def _is_num(v):
     return isinstance(v, (Sym, float, int)) and not isinstance(v, bool)
 
 
+ASSIGNMENT_TEXT = """[Assignment]
+    [[ByPosition]]
+        fuel = 1, 1, 1, flowrate = 1.5
+        fuel = 2, 1, 2, outlet_temp = 2.5
+        refl = 2, 3, 4, delta_temp = 3.5
+        fuel = 2, 5, 6, flowrate = 4.5
+"""
+
+
 def convert_each_once(S, cfg):
     from dassh import read_input, utils
     import dassh
     units = {'temperature': cfg['temperature'], 'length': cfg['length'], 'mass_flow_rate': cfg['mfr']}
     data = make_data(S, units, pin=cfg.get('pin', 'FuelModel'))
-    before = copy.deepcopy(data) if S.mode != 'sym' else _copy_tree(data)
     inp = read_input.DASSH_Input.__new__(read_input.DASSH_Input)
     dassh.logged_class.LoggedClass.__init__(inp, 4, 'dassh.read_input.DASSH_Input')
+    if cfg.get('parsed'):
+        # the Assignment section as the REAL parser builds it from lines that cover several positions; its numeric
+        # leaves are then made symbolic object by object - positions that share one dictionary share one leaf, and
+        # the loop of the converters over positions would convert it once per position
+        parsed = inp.parse_assignment_section(ASSIGNMENT_TEXT)
+        done = {}
+        for k, entry in enumerate(parsed['ByPosition']):
+            if not entry:
+                continue
+            bc = entry[2]
+            if id(bc) not in done:
+                done[id(bc)] = k
+                for key in list(bc):
+                    bc[key] = _leaf(S, f'Assign[{k}].{key}')
+        data['Assignment'] = parsed
+    before = copy.deepcopy(data) if S.mode != 'sym' else _copy_tree(data)
     inp.data = data
     # same order as DASSH_Input.__init__: temperature differences become outlet temperatures (in the user's
     # unit) first, then everything is converted
@@ -226,4 +251,6 @@ def configs(tier):
             continue
         seen.add((t, l, m))
         out.append((convert_each_once, dict(temperature=t, length=l, mfr=m, pin='FuelModel' if i % 2 == 0 else 'PinModel')))
+    for t, l, m in (('celsius', 'cm', 'kg/min'), ('fahrenheit', 'ft', 'lb/hr'), ('kelvin', 'm', 'kg/s')):
+        out.append((convert_each_once, dict(temperature=t, length=l, mfr=m, pin='FuelModel', parsed=True)))
     return out
